@@ -12,11 +12,23 @@ import (
 	"time"
 
 	"github.com/go-task/task/v3/verifh/h"
+	"github.com/go-task/task/v3/verifh/p08/hang"
 )
 
-const rule = "trees: seeded include trees of profile incl-clash (2-4 sibling includes defining the same global variable V, env E, a dir-sensitive sh variable P and same-named / overlapping wildcard tasks; one file included twice at one level under two namespaces with different dir; diamonds; nested siblings; flattened siblings with overlapping wildcards; chains as controls; random DAGs of depth <= 3). " +
+// workerWatchdog is generous; when it fires the worker's goroutine dump is judged (package hang).
+const workerWatchdog = 45 * time.Minute
+
+// sigShape is the role tag of a tree in signatures.
+func sigShape(t *Tree) string {
+	if t.Fault != "" {
+		return t.Shape + "-" + t.Fault
+	}
+	return t.Shape
+}
+
+const rule = "trees: seeded include trees of profile incl-clash (2-4 sibling includes defining the same global variable V, env E, a dir-sensitive sh variable P and same-named / overlapping wildcard tasks; one file included twice at one level under two namespaces with different dir; diamonds; nested siblings; flattened siblings with overlapping wildcards; chains as controls; random DAGs of depth <= 3; a dotenv shape: root-level and task-level dotenv files whose values refer to each other and to global vars, with two tasks that are really executed and only print their environment; fault diamonds: a common file broken in one of {missing required include, version mismatch, no version, cycle, flatten conflict} that one sibling includes optionally and the other normally: the OUTCOME, error class or success plus dump, must be the same in every load). " +
 	"schedules per tree: (i) N free-running loads in one process (N per GOMAXPROCS value in coverage.loads_per_tree) (fresh Executor, Setup, dump; dry run of a fixed call list in every coverage.dry_run_every_nth_free_load-th load), (ii) with the include.fetched/include.linked hooks every one of the k! completion orders of the k<=4 sibling include readers of each level, each repeated R times, (iii) the whole under GOMAXPROCS 1, 4 and 16. " +
-	"oracle: each load is reduced to a canonical dump (maps inside values key-sorted, nothing else normalised) split into kinds (task set, task order, aliases, global var values/order, call binding, compiled var values, compiled var order, command lines, compile errors, dry-run output); one tree must yield one value per kind over all its loads. No model of which value is right. " +
+	"oracle: each load is reduced to a canonical dump (maps inside values key-sorted, nothing else normalised) split into kinds (task set, task order, aliases, global var values/order, call binding, compiled var values, compiled var order, command lines, compile errors, dry-run output, output of the executed print-only tasks, the task listing as text and JSON under each sorter default/alphanumeric/none, one sorter and format per load in rotation); one tree must yield one value per kind over all its loads. No model of which value is right. " +
 	"evaluations = loads performed; a case is (tree, schedule) with schedule in {free@gmp, (level, completion order)@gmp}; non-trivial = the tree has a level with >= 2 sibling includes; distinct by (hash of the tree's files, schedule)."
 
 var gmps = []int{1, 4, 16}
@@ -27,12 +39,13 @@ func Run(id string, start time.Time) int {
 	scratch := h.Scratch(id)
 	defer os.RemoveAll(scratch)
 
-	ntrees := h.Pick(28, 42)
+	ntrees := h.Pick(PlanLen(), 2*PlanLen())
 	loads := h.Pick(200, 2000)  // free-running loads per tree in one process at GOMAXPROCS=4
 	loadsAlt := h.Pick(10, 200) // ... and in one process each at GOMAXPROCS=1 and 16
 	repeats := h.Pick(3, 6)     // loads per enforced completion order (GOMAXPROCS=4 process)
 	repeatsAlt := h.Pick(1, 2)
-	dryEvery := h.Pick(2, 1) // quick: the dry run is part of every second free-running load  // ... at GOMAXPROCS=1 and 16
+	faultLoads := h.Pick(400, 2000) // loads of a fault-bearing tree under each GOMAXPROCS value
+	dryEvery := h.Pick(2, 1)        // quick: the dry run is part of every second free-running load  // ... at GOMAXPROCS=1 and 16
 
 	// 1. generate and write the trees
 	var trees []*Tree
@@ -46,6 +59,9 @@ func Run(id string, start time.Time) int {
 			for k := 0; k < 3; k++ {
 				files[filepath.Join(d, fmt.Sprintf("wd%d", k), ".keep")] = ""
 			}
+		}
+		for k, v := range t.Extra {
+			files[k] = v
 		}
 		if err := h.WriteTree(t.Dir, files); err != nil {
 			fmt.Fprintf(os.Stderr, "%s: %v\n", id, err)
@@ -78,17 +94,18 @@ func Run(id string, start time.Time) int {
 	}
 	var jobs []jobRef
 	for _, gmp := range gmps {
-		per, n, rep := 1, loads, repeats
-		if gmp != 4 {
-			per, n, rep = 2, loadsAlt, repeatsAlt
-		}
-		for from := 0; from < len(trees); from += per {
-			to := from + per
-			if to > len(trees) {
-				to = len(trees)
+		for i, t := range trees {
+			n, rep := loads, repeats
+			if gmp != 4 {
+				n, rep = loadsAlt, repeatsAlt
 			}
-			j := Job{Trees: trees[from:to], Loads: n, Repeats: rep, GMP: gmp, Hook: true, DryEvery: dryEvery}
-			name := fmt.Sprintf("job-g%d-%04d", gmp, from)
+			if t.Fault != "" {
+				// fault-bearing trees mostly end in Setup: cheap, and their outcome depends on a race
+				// between reader goroutines, so they get more loads under every GOMAXPROCS value
+				n = faultLoads
+			}
+			j := Job{Trees: trees[i : i+1], Loads: n, Repeats: rep, GMP: gmp, Hook: true, DryEvery: dryEvery}
+			name := fmt.Sprintf("job-g%d-%04d", gmp, i)
 			jobs = append(jobs, jobRef{job: j, path: filepath.Join(scratch, name+".json"), out: filepath.Join(scratch, name+".out.json")})
 		}
 	}
@@ -104,11 +121,13 @@ func Run(id string, start time.Time) int {
 		c := exec.Command(worker, j.path, j.out)
 		c.Dir = scratch
 		c.Env = append(h.BaseEnv(scratch), "TASK_TEMP_DIR=.task")
-		var ob strings.Builder
-		c.Stdout, c.Stderr = &ob, &ob
-		err := c.Run()
+		// the loads run in a child: a crash or a deadlock of the code under test is an observation
+		hr := hang.Run(c, workerWatchdog)
 		var out Out
-		if err == nil {
+		var err error
+		if hr.Exit != 0 || hr.Fired {
+			err = fmt.Errorf("exit %d", hr.Exit)
+		} else {
 			var rb []byte
 			rb, err = os.ReadFile(j.out)
 			if err == nil {
@@ -118,8 +137,24 @@ func Run(id string, start time.Time) int {
 		mu.Lock()
 		defer mu.Unlock()
 		if err != nil {
-			part.Inconc(fmt.Sprintf("worker %s failed: %v: %s", filepath.Base(j.path), err, h.Truncate(ob.String(), 600)))
+			t := j.job.Trees[0]
+			done := 0
+			fmt.Sscanf(h.ReadFile(j.out+".progress"), "%d %d", new(int), &done)
 			part.Count("worker_failures", 1)
+			switch {
+			case (hr.Fired || hr.RuntimeDeadlock) && hr.Deadlock && done > 0:
+				// other loads of the same tree completed: the outcome of a load is not a function of the tree
+				w := map[string]string{"goroutine_dump.txt": h.Truncate(hr.Dump, 20000)}
+				for _, f := range t.Files {
+					w["project/"+f.Path] = f.Text
+				}
+				part.Violation(fmt.Sprintf("C09 | outcome | deadlock-after-completed-loads | %s | %s", sigShape(t), hr.Frame),
+					fmt.Sprintf("tree %d (%s) GOMAXPROCS %d: %d loads completed, then one load deadlocked (%s) at %s", t.Index, t.Shape, j.job.GMP, done, hr.Why, hr.Frame), w)
+			case hr.Fired || hr.RuntimeDeadlock:
+				part.Inconc(fmt.Sprintf("tree %d (%s) GOMAXPROCS %d: the worker never returned after %d completed loads (deadlock=%v: %s); a load that always hangs is C08's subject, not a nondeterminism", t.Index, t.Shape, j.job.GMP, done, hr.Deadlock, hr.Why))
+			default:
+				part.Inconc(fmt.Sprintf("tree %d (%s) GOMAXPROCS %d: worker died after %d loads: %v: %s", t.Index, t.Shape, j.job.GMP, done, err, h.Truncate(hr.Stderr, 600)))
+			}
 			return
 		}
 		events += out.Events
@@ -289,7 +324,7 @@ func Run(id string, start time.Time) int {
 		Extra: map[string]any{
 			"exhaustive_subspace":         fmt.Sprintf("all k! completion orders of the k<=4 sibling include readers of every level with >=2 includes: %d (tree,level,GOMAXPROCS) levels, %d orders, each repeated %d times (GOMAXPROCS=4) / %d times (1, 16); the free-running loads are a sample, not exhaustive", levels, orders, repeats, repeatsAlt),
 			"gomaxprocs":                  gmps,
-			"loads_per_tree":              map[string]int{"gomaxprocs=4": loads, "gomaxprocs=1": loadsAlt, "gomaxprocs=16": loadsAlt},
+			"loads_per_tree":              map[string]int{"gomaxprocs=4": loads, "gomaxprocs=1": loadsAlt, "gomaxprocs=16": loadsAlt, "fault-bearing trees, each gomaxprocs": faultLoads},
 			"kinds":                       Kinds,
 			"dry_run_every_nth_free_load": dryEvery,
 		},
@@ -347,7 +382,7 @@ func lineDiff(a, b string) string {
 }
 
 func report(part *h.Partial, t *Tree, kind, cause string, o *Obs, what string) {
-	role := t.Shape
+	role := sigShape(t)
 	sigKind := kind
 	sig := fmt.Sprintf("C09 | %s | %s", sigKind, role)
 	if cause != "" {
